@@ -461,6 +461,29 @@ def Src.usable (s : Src) : Bool :=
 def fromStart (s : Src) (known : Nat) (frames : List Frame) : List Frame :=
   if s.usable then frames.drop known else []
 
+/-- the non-empty-or-empty tails of a list -/
+def suffixes {α : Type} : List α → List (List α)
+  | [] => [[]]
+  | x :: xs => (x :: xs) :: suffixes xs
+
+/-- C08 for a client that joins a running stream at any tag (oracle for the HTTP-FLV /
+    WebSocket-FLV services and the FLV cache replay; the replay shape itself is property C02's
+    theorem): the bytes parse as FLV with the right header, and the tags are the configuration
+    prefix (metadata, video configuration, AAC configuration iff audio — timestamp 0) followed by
+    one tag per carried frame of some tail of the frame sequence, timestamps rebased either to
+    that tail's first frame (replayed GOP) or to the stream's time 0 (no cached GOP). -/
+def checkJoined (s : Src) (frames : List Frame) (bytes : Bytes) : Bool :=
+  match parseFlv bytes with
+  | none => false
+  | some (h, tags) =>
+    h.version = 1 && h.video && h.audio == s.aac &&
+    (tags.isEmpty ||
+     (suffixes (frames.filter (carried s))).any fun fs =>
+       prefixThenMedia s 0 fs tags ||
+       (match fs with
+        | f :: _ => prefixThenMedia s (tagTimeMs f) fs tags
+        | [] => false))
+
 /-! ## the writer-level statement: any tag sequence handed to one client (joining at any tag) -/
 
 /-- a tag as the media layer hands it to a client's writer: its type, its source time in ms
